@@ -63,7 +63,8 @@ M = [
         if output_len <= total_parameter_count {
             return Err(Error::Underdetermined);
         }''', 1, ['C12']),
- ('is_all_finite_skip_first', LM, 'matrix.iter().all(|elem| elem.is_finite())', 'matrix.iter().skip(1).all(|elem| elem.is_finite())', 1, ['C08']),   # assumed leaf, validated by a bounded Kani harness in the quick tier
+ ('is_all_finite_skip_first', LM, 'matrix.iter().all(|elem| elem.is_finite())', 'matrix.iter().skip(1).all(|elem| elem.is_finite())', 1, ['C08']),   # outside rule X15 -> degraded; reported by the bounded Kani harness in the quick tier
+ ('is_all_finite_any', LM, 'matrix.iter().all(|elem| elem.is_finite())', 'matrix.iter().any(|elem| elem.is_finite())', 1, ['C08']),   # verified from its real text since rule X15 covers matrices: levmar.is_all_finite.e1 fails
  ('stats_guard_lt', ST, 'if output_len <= total_parameter_count {', 'if output_len < total_parameter_count {', 1, ['C12']),
  ('stats_dof_wrong', ST, 'let degrees_of_freedom = output_len - total_parameter_count;', 'let degrees_of_freedom = output_len - model.base_function_count();', 1, ['C12']),
  ('stats_h_unweighted', ST, 'let H = weights * J.clone();', 'let H = J.clone();', 1, ['C13']),
